@@ -275,3 +275,67 @@ class SyncHB_on_trial_result:
 from pyvc.native import native_monitor  # noqa: E402
 
 EXTRA_CHECKS = [native_monitor("C05", "contracts.c05_native", "monitor_sync", "sync-hyperband", "about 23000 (thorough 217000) scenarios: get_top_list on every rank permutation x failure subset of <= 5 (6) slots, single brackets, synchronous and DEHB bracket managers and schedulers under every return order / failure sequence of 3..5 (5..7) steps and random schedules (1..9 workers, <= 70 (160) steps), against an independent reference with tie latitude; min/max twin runs incl. PASHA soft ranking and asynchronous Hyperband types")]
+
+
+# -- a failed job is reported to its bracket as failed (NaN) exactly once and no longer holds a pending slot: the rung can
+#    complete and the others are promoted; the searcher is told that the evaluation failed ------------------------------------
+
+
+@contract("iface:SyncSearcher.evaluation_failed")
+class I_ss_evaluation_failed:
+    params = dict(self=None, trial_id=None)
+
+
+@contract("iface:SyncSearcher.debug_log")
+class I_ss_debug_log:
+    attribute = True
+    returns = NoneT
+
+
+declare_class(
+    "SyncHBErr",
+    SYNC_HB + ":SynchronousHyperbandScheduler",
+    dict(
+        bracket_manager=Abstract("SyncBracketManager"),
+        searcher=Abstract("SyncSearcher"),
+        _searcher_initialized=Lit(True),
+        _trials_checkpoints_can_be_removed=List(Int),
+        _trial_to_pending_slot=ADict(Int, Tup(Int, Obj("SlotInRung"))),
+    ),
+)
+
+
+@contract(SYNC_HB + ":SynchronousHyperbandScheduler.on_trial_error", props=("C05", "C13"))
+class SyncHB_on_trial_error:
+    params = dict(self=Obj("SyncHBErr"), trial=Obj("Trial"))
+    ghost = GHOST
+    unbounded = False
+    shapes = [{"self._trial_to_pending_slot": n, "*": 0} for n in (0, 1, 2)]
+
+    def requires(s):
+        ks = list(s.self._trial_to_pending_slot.keys())
+        vs = list(s.self._trial_to_pending_slot.values())
+        return {"slot-belongs-to-its-trial": forall(range(0, len(ks)), lambda i: vs[i][1].trial_id == ks[i])}
+
+    def ensures(old, s, result):
+        tid = old.trial.trial_id
+        ks = list(old.self._trial_to_pending_slot.keys())
+        vs = list(old.self._trial_to_pending_slot.values())
+        calls = [e for e in s.G.log if e[0] == "SyncBracketManager.on_result"]
+        told = [e for e in s.G.log if e[0] == "SyncSearcher.evaluation_failed"]
+        pending = exists(range(0, len(ks)), lambda i: ks[i] == tid)
+        out = {"searcher-told-once": len(told) == 1}
+        if not pending:
+            out["nothing-reported-for-a-trial-without-slot"] = len(calls) == 0
+            return out
+        if len(calls) != 1:
+            out["failed-job-reported-to-its-bracket-exactly-once"] = False
+            return out
+        bid = [vs[i][0] for i in range(len(ks)) if ks[i] == tid][0]
+        mine = [vs[i][1] for i in range(len(ks)) if ks[i] == tid][0]
+        rb, slot = calls[0][1]
+        out["failed-job-reported-to-its-bracket-exactly-once"] = True
+        out["own-slot-reported-as-failed"] = rb == bid and slot.trial_id == tid and slot.level == mine.level and slot.rung_index == mine.rung_index and slot.slot_index == mine.slot_index and is_nan(slot.metric_val)
+        out["no-longer-pending"] = tid not in s.self._trial_to_pending_slot
+        out["other-pending-slots-untouched"] = forall(range(0, len(ks)), lambda i: (ks[i] in s.self._trial_to_pending_slot) if ks[i] != tid else True)
+        return out
